@@ -14,28 +14,34 @@ MANIFEST = {
     'text': 'Kernel-checked theorems (PMV/Props/C19.lean) about a code-shaped Lean model of every mutator of polymath '
             '(in-place operators, item assignment, insert_deriv(s), delete_deriv(s), set_units) written as a validation '
             'chain in source order followed by write primitives that re-check their own preconditions: a rejected call '
-            'returns the state it started from and one of TypeError/ValueError/IndexError (reject_clean), an accepted '
-            'call meets the precondition of every write so nothing can fail after the first write '
-            '(accept_no_late_failure), every fault class of the property is rejected (fault_detected, singly and in '
-            'pairs), index errors of item assignment surface as IndexError. A translator (harness/c19_py2lean.py) '
-            'regenerates the event structure (raise / write / call / return) of every mutator from the source with ast on '
-            'every run; no-raise-after-write and raised-classes-allowed are re-proved on it by decide through a checker '
-            'proved sound for all control-flow paths. The model is tied to /repo on every run by a correspondence check: '
-            'the same (target, operand, fault) descriptors drive the real code (deep before/after snapshots) and the '
-            'compiled model, and the observations (exception class, clean/dirty, resulting derivative keys and kind) '
-            'are diffed. A sweep calls public methods with every documented keyword option.',
+            'returns the state it started from and one of TypeError/ValueError/IndexError (reject_clean, full), an '
+            'accepted call meets the precondition of every write so nothing can fail after the first write '
+            '(accept_no_late_failure, full, by induction over the inserted derivatives), every fault class of the '
+            'property is rejected on every mutator it applies to (fault_detected, singly and in pairs), index errors of '
+            'item assignment surface as IndexError. A translator (harness/c19_py2lean.py) regenerates the event '
+            'structure (raise / write / call / return) of every mutator from the source with ast on every run; '
+            'no-raise-after-write, only-commit-helpers-after-write and raised-classes-allowed are re-proved on it by '
+            'decide through a checker proved sound for all control-flow paths. The model is tied to /repo on every '
+            'run by a correspondence check: the same (target, operand, fault) descriptors drive the real code (deep '
+            'before/after snapshots) and the compiled model, and the observations (exception family, clean/dirty, '
+            'resulting derivative keys and kind) are diffed. A sweep calls every public method, static constructor '
+            'and class method that has optional parameters with every documented option value.',
     'design': 'DESIGN.md §3 C19, DESIGN.d/C19.md',
     'technique': 'Lean 4 proof (validate-then-commit refinement, induction over derivative lists and control-flow '
                  'trees) + regenerated event tables + model/code correspondence',
     'note': 'Trusted: Lean kernel; hand-written model Model/Faults.lean and translator c19_py2lean.py (both re-checked '
             'against the code on every run); NumPy validates an in-place ufunc / item assignment before it writes '
-            '(kernel contract). Needs the fix: commits of branch wt-C19.',
+            '(kernel contract).',
 }
-RULE = ('for every mutator: targets of all 8 classes x admitted kinds x shapes x with/without denominators x with/without '
-        'derivatives (quick: stratified sample per mutator, thorough: all), valid operands that must be accepted, then '
-        'every applicable fault class injected singly and in pairs (shape, units, numer, denom, kind, type, deriv, ro, '
-        'index); plus the keyword-option sweep. non-trivial = at least one fault injected or derivatives present; '
-        'distinct = distinct request line (model cases) or case id (sweep)')
+RULE = ('for every mutator: targets of all 8 classes x admitted kinds x shapes x with/without denominators x derivative sets '
+        '(none, one, two with different denominators, one read-only) (stratified sample per mutator, 7x larger in '
+        'thorough; shapeless Python-scalar-valued objects and read-only derivatives always present), valid operands '
+        'that must be accepted (Qubes of every shape that broadcasts in, numbers, arrays), then every applicable fault '
+        'class injected singly and in pairs (shape, units, numer, denom, kind, type, deriv, ro, index incl. six index '
+        'forms that fail inside _prep_index with ValueError); plus the option sweep over every public method / static '
+        'constructor / classmethod with optional parameters (each value of each option, products of the seven '
+        'headline options). non-trivial = at least one fault injected or derivatives present; distinct = distinct '
+        'request line (model cases) or case id (sweep)')
 ASSUMPTIONS = [
     'NumPy checks casting and broadcasting of `a op= b` and of `a[i] = b` before writing anything (kernel contract, '
     'modelled as kernelCheck and exercised by the correspondence run)',
@@ -124,8 +130,6 @@ def request(case):
     if mut in G.ARITH or mut in G.LOGIC:
         if a['t'] in ('num', 'nd') and mut in ('iadd', 'isub') and (G.CLS[t['cls']][0] != 0 or t['denom']):
             return None            # as_this_type of a bare number/array for item-shaped targets: not modelled
-        if a['t'] == 'nd' and mut in ('imul', 'itruediv', 'ifloordiv', 'imod'):
-            return None
         return ['c19', mut, obj_sx(t), arg_sx(a)]
     if mut == 'setitem':
         ix = idx_sx(case)
@@ -196,6 +200,9 @@ def must_reject(case):
             res.append(f)
         elif f == 'units' and not typed and mut in ('iadd', 'isub', 'set_units'):
             res.append(f)
+        elif f == 'kind' and not typed and mut in ('iadd', 'isub', 'imul', 'itruediv') and a.get('t') == 'q':
+            res.append(f)          # a float QUBE operand for an integer target (a bare Python float on a Python-int
+                                   # value is carried out by Python and is not judged)
         elif f == 'index':
             res.append(f)
     return res
@@ -223,7 +230,7 @@ def oracle(case):
         if case['faults'] == ['index'] and r['exc'] != 'IndexError':
             return ('index-exc:%s:%s' % (r['etype'], cls), 'an invalid index raised %s, not IndexError' % r['etype'])
         return None
-    need = must_reject(case)
+    need = must_reject(case) if mut not in G.NONMUT else []     # non-mutating: exception family and operands only
     if need:
         wf = R.wellformed(r['target'])
         return ('accepted:%s:%s:%s%s' % (mut, '+'.join(need), cls, ':malformed' if wf else ''),
